@@ -252,6 +252,44 @@ pub fn u1() -> Vec<Ty> {
     dedup(v)
 }
 
+/// The quick tier's U1: every leaf bare, every constructor over the 9 class-representative
+/// leaves, `list`/`option` over the remaining leaves, and three aggregates holding all 13
+/// primitives at once (so that every primitive occurs below every aggregate kind).
+pub fn u1_quick() -> Vec<Ty> {
+    let mut v = leaves();
+    v.extend(nullary());
+    let rep = leaves_quick();
+    for l in &rep {
+        v.extend(apply_all(l, false));
+    }
+    for l in leaves() {
+        if !rep.contains(&l) {
+            v.push(Ty::List(b(&l)));
+            v.push(Ty::Opt(b(&l)));
+        }
+    }
+    let prims: Vec<Ty> = PRIMS.iter().map(|p| Ty::Prim(p)).collect();
+    v.push(Ty::Record(prims.clone()));
+    v.push(Ty::Tuple(prims.clone()));
+    v.push(Ty::Variant(prims.iter().cloned().map(Some).collect()));
+    dedup(v)
+}
+
+/// One representative per primitive class + error-context + both handles.
+pub fn leaves_quick() -> Vec<Ty> {
+    vec![
+        Ty::Prim("bool"),
+        Ty::Prim("u8"),
+        Ty::Prim("u64"),
+        Ty::Prim("f32"),
+        Ty::Prim("char"),
+        Ty::Prim("string"),
+        Ty::Prim("error-context"),
+        Ty::Own,
+        Ty::Borrow,
+    ]
+}
+
 /// U2 \ U1: every constructor over (every constructor over the reduced leaves + payload-free types).
 pub fn u2_only() -> Vec<Ty> {
     let mut inner = Vec::new();
@@ -374,8 +412,8 @@ impl Pos {
     }
 }
 
-/// WIT text of the world that places `t` at `pos`. `None` when the combination is
-/// syntactically meaningless (nothing is silently dropped: the caller counts these).
+/// WIT text of the world that places `t` at `pos` (combinations WIT does not allow, e.g. a
+/// `borrow` in a result, are rejected — and counted — by the validity filter, not here).
 pub fn world_text(t: &Ty, pos: Pos, is_async: bool) -> String {
     let mut r = Render::new();
     let te = r.ty(t);
@@ -554,4 +592,211 @@ pub fn special_worlds() -> Vec<(&'static str, String)> {
             "package t:c@1.2.3;\n\ninterface i {\n  type t = u32;\n  f: func(x: t) -> t;\n}\n\nworld w {\n  import i;\n  export i;\n}\n".into(),
         ),
     ]
+}
+
+// ------------------------------------------------------------------------------------------
+// C15: composed worlds with several packages / interfaces / types, so that every map a
+// generator keeps (interfaces, types, packages, resources, futures/streams) holds >= 3 keys.
+
+#[derive(Clone, Copy, Debug, PartialEq, Eq)]
+pub enum Flavour {
+    Base,
+    Async,
+    Map,
+    Fll,
+    ErrorContext,
+}
+
+pub const FLAVOURS: [Flavour; 5] = [
+    Flavour::Base,
+    Flavour::Async,
+    Flavour::Map,
+    Flavour::Fll,
+    Flavour::ErrorContext,
+];
+
+impl Flavour {
+    pub fn name(self) -> &'static str {
+        match self {
+            Flavour::Base => "base",
+            Flavour::Async => "async",
+            Flavour::Map => "map",
+            Flavour::Fll => "fixed-length-list",
+            Flavour::ErrorContext => "error-context",
+        }
+    }
+}
+
+fn mentions(t: &Ty, p: &dyn Fn(&Ty) -> bool) -> bool {
+    p(t) || t.children().iter().any(|c| mentions(c, p))
+}
+
+/// Types (depth <= 2) a flavour may use: the base pool never contains async/map/fll/error-context
+/// types, every other flavour adds exactly its own feature.
+pub fn pool(fl: Flavour) -> Vec<Ty> {
+    let mut all = Vec::new();
+    let leaves = [
+        Ty::Prim("u8"),
+        Ty::Prim("u64"),
+        Ty::Prim("f32"),
+        Ty::Prim("string"),
+        Ty::Prim("char"),
+        Ty::Prim("bool"),
+        Ty::Own,
+        Ty::Borrow,
+        Ty::Prim("error-context"),
+    ];
+    for l in &leaves {
+        for t in apply_all(l, false) {
+            all.push(t.clone());
+        }
+    }
+    all.extend([Ty::Enum(3), Ty::Flags(9), Ty::Flags(3), Ty::Enum(2)]);
+    // a few depth-2 shapes
+    for l in [Ty::Prim("string"), Ty::Prim("u64"), Ty::Own] {
+        for inner in [Ty::List(b(&l)), Ty::Opt(b(&l)), Ty::Record(vec![l.clone(), Ty::Prim("u8")])] {
+            for t in apply_all(&inner, false) {
+                all.push(t);
+            }
+        }
+    }
+    let is_async = |t: &Ty| matches!(t, Ty::Future(_) | Ty::Stream(_));
+    let is_map = |t: &Ty| matches!(t, Ty::Map(..));
+    let is_fll = |t: &Ty| matches!(t, Ty::Fll(..));
+    let is_ec = |t: &Ty| matches!(t, Ty::Prim("error-context"));
+    let borrow_in_async = |t: &Ty| {
+        mentions(t, &|x| {
+            matches!(x, Ty::Future(_) | Ty::Stream(_)) && x.uses_borrow()
+        })
+    };
+    let bad_key = |t: &Ty| {
+        mentions(t, &|x| match x {
+            Ty::Map(k, _) => !matches!(**k, Ty::Prim("u8" | "u64" | "string" | "char" | "bool" | "u32")),
+            _ => false,
+        })
+    };
+    let bad_stream = |t: &Ty| mentions(t, &|x| matches!(x, Ty::Stream(Some(p)) if **p == Ty::Prim("char")));
+    let v: Vec<Ty> = dedup(all)
+        .into_iter()
+        .filter(|t| !borrow_in_async(t) && !bad_key(t) && !bad_stream(t))
+        .filter(|t| {
+            let a = mentions(t, &is_async);
+            let m = mentions(t, &is_map);
+            let f = mentions(t, &is_fll);
+            let e = mentions(t, &is_ec);
+            match fl {
+                Flavour::Base => !a && !m && !f && !e,
+                Flavour::Async => !m && !f && !e,
+                Flavour::Map => !a && !f && !e,
+                Flavour::Fll => !a && !m && !e,
+                Flavour::ErrorContext => !m && !f,
+            }
+        })
+        .collect();
+    // put the flavour's own types first so that every world of the flavour has some
+    let own: Vec<Ty> = v
+        .iter()
+        .filter(|t| match fl {
+            Flavour::Base => false,
+            Flavour::Async => mentions(t, &is_async),
+            Flavour::Map => mentions(t, &is_map),
+            Flavour::Fll => mentions(t, &is_fll),
+            Flavour::ErrorContext => mentions(t, &is_ec),
+        })
+        .cloned()
+        .collect();
+    let rest: Vec<Ty> = v.iter().filter(|t| !own.contains(t)).cloned().collect();
+    // interleave: own, rest, rest, own, rest, rest ...
+    let mut out = Vec::new();
+    let (mut i, mut j) = (0, 0);
+    while i < own.len() || j < rest.len() {
+        if i < own.len() {
+            out.push(own[i].clone());
+            i += 1;
+        }
+        for _ in 0..2 {
+            if j < rest.len() {
+                out.push(rest[j].clone());
+                j += 1;
+            }
+        }
+    }
+    out
+}
+
+/// World number `j` of a flavour: 2 dependency packages + main package, 6 interfaces with 4
+/// types and one resource each, world-level typedefs and functions, imports and exports.
+pub fn rich_world(fl: Flavour, j: usize) -> String {
+    let pool = pool(fl);
+    let with_async_funcs = fl == Flavour::Async || fl == Flavour::ErrorContext;
+    let mut next = j * 23;
+    let mut take = |n: usize| -> Vec<Ty> {
+        let v: Vec<Ty> = (0..n).map(|k| pool[(next + k) % pool.len()].clone()).collect();
+        next += n;
+        v
+    };
+    let iface = |name: &str, tys: &[Ty], uses: &str, k: usize| -> String {
+        let mut r = Render::new();
+        let exprs: Vec<String> = tys.iter().map(|t| r.ty(t)).collect();
+        let mut s = format!("  interface {name} {{\n");
+        if !uses.is_empty() {
+            s.push_str(&format!("    {uses}\n"));
+        }
+        s.push_str("    resource res {\n      constructor(a: u32);\n      get: func() -> u32;\n      make: static func(a: string) -> res;\n    }\n");
+        for d in &r.decls {
+            s.push_str(&format!("    {d}\n"));
+        }
+        for (n, (t, e)) in tys.iter().zip(&exprs).enumerate() {
+            s.push_str(&format!("    type t{n} = {e};\n"));
+            let func = if with_async_funcs && (n + k) % 2 == 0 { "async func" } else { "func" };
+            if t.uses_borrow() {
+                s.push_str(&format!("    f{n}: {func}(a: t{n}, b: {e});\n"));
+            } else {
+                s.push_str(&format!("    f{n}: {func}(a: t{n}, b: {e}) -> t{n};\n"));
+                s.push_str(&format!("    g{n}: {func}() -> {e};\n"));
+            }
+        }
+        s.push_str("  }\n");
+        s
+    };
+    let strip = |s: String| -> String {
+        // top-level items of the main package are not nested: drop two spaces of indentation
+        s.lines().map(|l| l.strip_prefix("  ").unwrap_or(l)).collect::<Vec<_>>().join("\n") + "\n"
+    };
+    let mut out = format!("package t:main{j};\n\n");
+    out.push_str(&strip(iface("alpha", &take(4), "", 0)));
+    out.push_str(&strip(iface("beta", &take(4), "", 1)));
+    out.push_str(&strip(iface("gamma", &take(4), "use alpha.{t0 as alpha-t0};", 2)));
+    out.push_str(&strip(iface("delta", &take(4), "use beta.{t1 as beta-t1};", 3)));
+    let wt = take(3);
+    let mut r = Render::new();
+    let exprs: Vec<String> = wt.iter().map(|t| r.ty(t)).collect();
+    out.push_str("world w {\n");
+    out.push_str("  import alpha;\n  import beta;\n  import t:dep-a/types;\n  import t:dep-b/types;\n");
+    out.push_str("  export gamma;\n  export delta;\n  export t:dep-b/more;\n");
+    out.push_str("  use alpha.{t1 as a-t1};\n  use t:dep-a/types.{t2 as d-t2};\n");
+    if wt.iter().any(|t| t.uses_handle()) {
+        out.push_str("  use alpha.{res};\n");
+    }
+    for d in &r.decls {
+        out.push_str(&format!("  {d}\n"));
+    }
+    for (n, (t, e)) in wt.iter().zip(&exprs).enumerate() {
+        out.push_str(&format!("  type wt{n} = {e};\n"));
+        let func = if with_async_funcs && n == 1 { "async func" } else { "func" };
+        out.push_str(&format!("  import wi{n}: {func}(a: wt{n}, b: a-t1);\n"));
+        if t.uses_borrow() {
+            out.push_str(&format!("  export we{n}: {func}(a: wt{n}, c: d-t2);\n"));
+        } else {
+            out.push_str(&format!("  export we{n}: {func}(a: wt{n}, c: d-t2) -> {e};\n"));
+        }
+    }
+    out.push_str("}\n\n");
+    out.push_str("package t:dep-a {\n");
+    out.push_str(&iface("types", &take(4), "", 4));
+    out.push_str("}\n\npackage t:dep-b {\n");
+    out.push_str(&iface("types", &take(4), "", 5));
+    out.push_str(&iface("more", &take(4), "use types.{t3 as types-t3};", 6));
+    out.push_str("}\n");
+    out
 }
